@@ -398,7 +398,8 @@ def main():
     kinds = ["jit", "scan", "while", "fori", "cond", "nested_jit", "grad", "value_and_grad", "vmap",
              "seed_while", "seed_jit", "seed_fori", "seed_ok", "seed_scan_while", "jit_det",
              "jit_adev", "seed_ok_adev", "seed_scan_adev", "seed_remat", "seed_custom_jvp", "seed_custom_vjp", "seed_remat_jit",
-             "seed_remat_remat", "seed_remat_custom_jvp", "seed_custom_jvp_remat"]
+             "seed_remat_remat", "seed_remat_custom_jvp", "seed_custom_jvp_remat",
+             "seed_grad", "jit_grad_of_seed", "scan_grad", "jit_jvp"]
     from genjax import modular_vmap
     for it in range(5 * len(kinds)):
         k = kinds[it % len(kinds)]
@@ -458,6 +459,14 @@ def main():
                 seed(lambda v: jax.checkpoint(body)(v))(root, 0.5)
             elif k == "seed_remat_jit":
                 jax.jit(seed(lambda v: jax.checkpoint(body)(v)))(root, 0.5)
+            elif k == "seed_grad":
+                seed(jax.grad(body))(root, 0.5)
+            elif k == "jit_grad_of_seed":
+                jax.jit(jax.grad(lambda v: seed(body)(root, v)))(0.5)
+            elif k == "scan_grad":
+                jax.lax.scan(lambda cc, _: (jax.grad(body)(cc), None), 0.5, jnp.arange(2))
+            elif k == "jit_jvp":
+                jax.jit(lambda v: jax.jvp(body, (v,), (1.0,))[1])(0.5)
             elif k == "seed_remat_remat":
                 seed(lambda v: jax.checkpoint(lambda w: jax.checkpoint(body)(w * 1.0))(v))(root, 0.5)
             elif k == "seed_remat_custom_jvp":
